@@ -24,8 +24,9 @@ LEVEL_NOTE = (
     'Trusted: Lean kernel (axioms propext, Classical.choice, Quot.sound), the hand-written model (validated by '
     'correspondence, not proved equal to the Python), Python decimal/float conversions, numpy/libm accuracy '
     '(measured within 4 ulp against math/decimal references, not proved). IEEE rounding is not modelled: '
-    'CEILING/FLOOR with a non-integer significance are known finding D37 (float quotient/product), recognised '
-    'by a float-level transcription in the harness; above 2^53 CEILING/FLOOR are compared within 4 ulp.')
+    'CEILING/FLOOR outside the zone where double arithmetic is exact (integer significance, operands below '
+    '2^53) are known finding D37 (float quotient/product), recognised by a float-level transcription in the '
+    'harness; an underflowing quotient is known finding D1605 (modelled, guarded theorems).')
 DESIGN_REF = '§4 C16'
 
 TRUSTED = [
@@ -49,16 +50,19 @@ ASSUMPTIONS = [
     'error value is required; where number / significance overflows in CEILING / FLOOR an Excel error is '
     'accepted',
     'ATAN2(0,0): the IEEE reference atan2(0,0)=0 is accepted (Excel reports #DIV/0!)',
-    'CEILING / FLOOR are compared exactly for an integer-valued significance while number and result are '
-    'below 2^53, within 4 ulp above (binary doubles cannot hold the exact multiple); a non-integer '
-    'significance is the listed finding D37',
-    'EVEN(+-5e-324) (the smallest subnormal) is listed finding D1605; sign of zero results is not compared',
+    'CEILING / FLOOR are compared exactly for an integer-valued significance while number, significance and '
+    'result are below 2^53 (double arithmetic is exact there); beyond, a result within 4 ulp of the exact '
+    'multiple is accepted (a double cannot hold it) and anything else is the listed finding D37, as is every '
+    'miss with a non-integer significance - provided it equals the float-level transcription of the code',
+    'a float quotient that underflows to zero (EVEN(+-5e-324), CEILING/FLOOR with |number/significance| < '
+    '2^-1075) is listed finding D1605; the sign of a zero result is not compared',
     'trigonometric functions are compared with math.* for |x| <= 1e15 and for finiteness beyond',
     'SQRTPI, RAND, RANDBETWEEN, SUM* are not part of the statement',
 ]
 
 ULPS = 4
 TWO53 = 2 ** 53
+MAX_ULP = {}      # per function: largest distance (in ulp) from the reference seen on this run
 
 
 # ------------------------------------------------------------------------------------------ helpers
@@ -622,6 +626,9 @@ def check_case(fn, args, resp, known_ids):
             return ('ok', 'a finite value', got, False)
         return (f'violation:{fn} of a large argument is not a finite value', 'a finite value', got, True)
     if real[0] == 'val' and not isinstance(real[1], bool):
+        u = ulps(as_float(real[1]), ref)
+        if u > MAX_ULP.get(fn, (-1,))[0]:
+            MAX_ULP[fn] = (u, [repr(a) for a in args])
         if close(real[1], ref):
             return ('ok' if model_agrees(2 * ULPS) else 'drift', expected, got, True)
     return (f'violation:{fn} is not within {ULPS} ulp of the reference value', expected, got, True)
@@ -692,6 +699,7 @@ def run(ctx):
     from xlcalculator.xlfunctions import xl
     from xlcalculator import ModelCompiler, Evaluator  # noqa: F401
     res = Result()
+    MAX_ULP.clear()
     thorough = ctx.tier == 'thorough' or ctx.widen
     known_ids = {e['id'] for e in ctx.known if e.get('status') == 'known'}
     res.rule = (
@@ -770,6 +778,7 @@ def run(ctx):
                                    'input': {'formula': f, 'fn': fn, 'args': list(args)},
                                    'expected': repr(direct), 'got': repr(via)})
     res.count('via_formula', nform)
+    res.extra['max_ulp_vs_reference'] = {k: {'ulp': v[0], 'at': v[1]} for k, v in sorted(MAX_ULP.items())}
     if res.drift:
         res.notes.append(f'{len(res.drift)} model/implementation differences where the code still meets Spec')
     return res
